@@ -41,10 +41,11 @@ class Const(object):
 class Sym(object):
     """Module-local view of a declared name."""
     __slots__ = ('name', 'kind', 'direction', 'sig', 'width', 'signed', 'msb', 'lsb',
-                 'is_mem', 'mem_a', 'mem_b', 'line', 'is_integer')
+                 'is_mem', 'mem_a', 'mem_b', 'line', 'is_integer', 'scalar')
 
     def __init__(self, name, kind, direction, sig, width, signed, msb, lsb, line,
-                 is_mem=False, mem_a=0, mem_b=0, is_integer=False):
+                 is_mem=False, mem_a=0, mem_b=0, is_integer=False, scalar=False):
+        self.scalar = scalar        # declared without a range (a bit- or part-select of it is illegal, IEEE 1364-2005 5.2.1)
         self.name = name
         self.kind = kind            # 'net' | 'var'
         self.direction = direction  # None | input | output | inout
@@ -213,6 +214,8 @@ def _an_select(e, cx):
                     _err('bad-memory-use', "part-select directly on memory '%s'" % o.name, line)
                 idx = analyze(e.idx, cx)
                 return T('memword', o.width, o.signed, (o, idx), line)
+            if o.scalar:
+                _err('select-of-scalar', "bit- or part-select of '%s', which is declared without a range%s" % (o.name, cx.where), line)
             bt = T('sig', o.width, o.signed, o, line)
     elif isinstance(base, Index):
         bt = _an_select(base, cx)
@@ -972,6 +975,8 @@ def _lv_add(e, cx, lv):
         lv.targets.append((sym, None, 'ok'))
         return
     full = (1 << bw) - 1
+    if sym.scalar and addr_of is None:
+        _err('select-of-scalar', "bit- or part-select of '%s', which is declared without a range%s" % (sym.name, cx.where), line)
     if isinstance(e, Index):
         idx = analyze(e.idx, cx)
         si = _static_index(idx)
